@@ -343,6 +343,26 @@ func main() {
 			}
 		}
 	}
+	// first-call races: 2..4 goroutines whose very first call on a fresh message (all three kinds, mostly zero values,
+	// whose lock and channels are not set up by a constructor) is an Ack or a Nack, released together
+	nFirst := 1500
+	if a.Thorough() {
+		nFirst = 20000
+	}
+	for i := 0; i < nFirst && blockedSeen == 0; i++ {
+		kind := "zero"
+		if i%5 == 4 {
+			kind = kinds[rng.Intn(2)]
+		}
+		g := 2 + rng.Intn(3)
+		scripts := make([]string, g)
+		for j := range scripts {
+			scripts[j] = string("an"[rng.Intn(2)])
+		}
+		evs := runHist(kind, scripts, i%3 == 0, rng)
+		out.Case(histReq(kind, evs), "lin")
+		out.Count("first.kind." + kind)
+	}
 	for i := 0; i < nHist && blockedSeen == 0; i++ {
 		kind := kinds[rng.Intn(3)]
 		g := 2 + rng.Intn(15)
